@@ -682,3 +682,30 @@ def rule_G4_handlers(ctx, funcs):
                 else:
                     ctx.inst("G4", f, "except %s" % ", ".join(names), "catches only resolver errors / the cache miss")
     return n
+
+
+# ---------------------------------------------------------------------- R6
+def rule_R6_string_compare(ctx, typer, funcs):
+    """names are compared 'as a string': the value handed to a comparator
+    (__cmp, __match, cmp_) as the node's name is str-typed (read through the
+    str()-coercing helper), so get and glob agree and no str method fails"""
+    from ..nodetype import STR
+    n = 0
+    for f in funcs:
+        ft = typer.results.get(f)
+        if ft is None or f.cls is None or f.cls.name != "Resolver":
+            continue
+        for node in walk_own(f.node):
+            if isinstance(node, ast.Call) and node.args and (
+                    (isinstance(node.func, ast.Attribute) and node.func.attr in ("__cmp", "__match") and norm(node.func.value) == f.selfname)
+                    or (isinstance(node.func, ast.Name) and node.func.id == "cmp_")):
+                a0 = node.args[0]
+                t = ft.type_of(a0)
+                n += 1
+                if t == STR:
+                    ctx.inst("R6", f, node, "node name compared as a string (str-typed)")
+                else:
+                    from ..nodetype import show
+                    ctx.viol("R6", f, node, "the node's name reaches the comparison as `%s` (type %s), not through the str()-coercing "
+                             "accessor: non-string names (ints, enums) no longer resolve, and str methods may raise" % (norm(a0), show(t)))
+    return n
